@@ -179,7 +179,13 @@ def judge_decode(byte_lists):
 def classify(bs, what):
     if ("not rejected" in what or "differ" in what) and any(b in (0xF5, 0xF6, 0xF7) for b in bs):
         return "utf8-above-10ffff-skipped-after-32-chars"
-    return "utf8-decode:" + what.split("(")[0].strip()[:60]
+    if "differ" in what:
+        return "utf8-decode:wrong-or-illformed-data-decoded"
+    if "not rejected" in what:
+        return "utf8-decode:illformed-not-rejected"
+    if "not decoded completely" in what:
+        return "utf8-decode:wellformed-not-decoded"
+    return "utf8-decode:truncated-consumed"
 
 def check_decode_against_spec(ctx, byte_lists, origin):
     bad = judge_decode(byte_lists)
@@ -246,9 +252,14 @@ def is_wf16(us):
         k += 1
     return True
 
+_search_cache = {}
+
 def search(ctx, broken):
     """A theorem/translator tie broke: look for a concrete input on which the implementation contradicts
     the Spec (independently of the model)."""
+    if "done" in _search_cache:
+        return None      # the one search already ran; its findings (if any) are recorded
+    _search_cache["done"] = True
     F, _ = gen_cases(ctx)
     bl = []
     for l in F:
